@@ -75,6 +75,12 @@ def gen_case(rng, i, tier):
         for j in rng.sample(range(N), 3):
             wv[j] = 0.0
         build.append(["weights", [hx(v, sc) for v in wv]])
+    if i % 6 == 2:
+        # the sign of a weight is immaterial for the objective (only w^2 enters): every second weight negative, or all of them
+        wk = "neg"
+        build = [o for o in build if o[0] != "weights"]
+        wv = [round_to(rng.uniform(0.5, 2.0), sc) * (-1.0 if (j % 2 or i % 12 == 2) else 1.0) for j in range(N)]
+        build.append(["weights", [hx(v, sc) for v in wv]])
     if not spec.get("builder_made") and i % 3 == 0:
         # a hand-written model that computes from what set_params stored (the documented place for caching): the problem builder
         # must hand it the initial guess through set_params before anything is evaluated
